@@ -212,9 +212,10 @@ func (eng *Engine) load() error {
 				eng.structural = append(eng.structural, fmt.Sprintf("%s:%d: contract for %q binds to no function in %s", strings.TrimPrefix(c.File, eng.repo+"/"), c.Line, c.Ref, sp.Pkg.Name()))
 				continue
 			}
-			if !c.HasMod && !c.ModAny {
-				// default frame of a verified contract: nothing visible to the caller changes (checked)
-				c.HasMod = true
+			if prev, dup := eng.contracts[fn]; dup {
+				// several blocks for one function: clauses accumulate
+				mergeContract(prev, c)
+				continue
 			}
 			eng.contracts[fn] = c
 			eng.targets = append(eng.targets, target{fn, c})
@@ -222,6 +223,12 @@ func (eng *Engine) load() error {
 		for _, ti := range cf.TypeInvs {
 			key := sp.Pkg.Name() + "." + ti.Type
 			eng.typeInvs[key] = append(eng.typeInvs[key], ti)
+		}
+	}
+	for _, tg := range eng.targets {
+		if !tg.c.HasMod && !tg.c.ModAny {
+			// default frame of a verified contract: nothing visible to the caller changes (checked)
+			tg.c.HasMod = true
 		}
 	}
 	if externCF != nil {
@@ -739,4 +746,33 @@ func (o *Obligation) Proved() bool {
 		return o.Res.Status != "unsat" // only a refuted reachability check is a failure
 	}
 	return o.Res.Status == "unsat"
+}
+
+func mergeContract(dst, src *Contract) {
+	for _, p := range src.Props {
+		if !contains(dst.Props, p) {
+			dst.Props = append(dst.Props, p)
+		}
+	}
+	dst.Requires = append(dst.Requires, src.Requires...)
+	dst.Ensures = append(dst.Ensures, src.Ensures...)
+	dst.Shows = append(dst.Shows, src.Shows...)
+	dst.Modifies = append(dst.Modifies, src.Modifies...)
+	dst.HasMod = dst.HasMod || src.HasMod
+	dst.ModAny = dst.ModAny || src.ModAny
+	dst.Decr = append(dst.Decr, src.Decr...)
+	for k, ls := range src.Loops {
+		if d := dst.Loops[k]; d != nil {
+			d.Invariants = append(d.Invariants, ls.Invariants...)
+			d.Decreases = append(d.Decreases, ls.Decreases...)
+		} else {
+			dst.Loops[k] = ls
+		}
+	}
+	dst.Calls = append(dst.Calls, src.Calls...)
+	dst.Afters = append(dst.Afters, src.Afters...)
+	dst.Lets = append(dst.Lets, src.Lets...)
+	dst.Inline = dst.Inline || src.Inline
+	dst.Pure = dst.Pure || src.Pure
+	dst.NoPanic = dst.NoPanic || src.NoPanic
 }
